@@ -272,7 +272,12 @@ def tokenize(text):
 
 FAULT_KINDS = ['eof', 'del_token', 'dup_token', 'sub_token', 'ins_token',
                'flip_byte', 'ins_nul', 'ins_nonascii', 'undefined_label',
-               'append_token', 'append_fragment', 'eof_in_token']
+               'append_token', 'append_fragment', 'eof_in_token',
+               'append_after_odd_space']
+# characters Python calls white space but RING does not (its filler is
+# blank, tab, newline), plus a few that merely look like it
+ODD_SPACE = ['\r', '\f', '\v', '\x1c', '\x1d', '\x85', '\xa0', '\u2028',
+             '\u2003', '\u3000', '\x00', '\ufeff', '\u200b']
 
 
 def apply_fault(rng, text, kind):
@@ -329,7 +334,13 @@ def apply_fault(rng, text, kind):
                 {'kind': kind, 'label': m.group(1)}
     if kind == 'append_token':
         t = rng.choice(TOKEN_ALPHABET)
-        return text + ' ' + t, {'kind': kind, 'token': t}
+        sep = rng.choice([' ', ' ', '\n', '\t', ''])
+        return text + sep + t, {'kind': kind, 'token': t, 'sep': sep}
+    if kind == 'append_after_odd_space':
+        c = rng.choice(ODD_SPACE)
+        t = rng.choice(TOKEN_ALPHABET + ['this is not RING at all'])
+        pre = rng.choice(['', '', ' ', '\n'])
+        return text + pre + c + t, {'kind': kind, 'ch': ord(c), 'token': t}
     if kind == 'append_fragment':
         extra = gen_fragment(rng, max_atoms=2, layout=False)
         return text + '\n' + extra, {'kind': kind}
